@@ -416,3 +416,7 @@ def run(ck):
 # session 5 (round 9, D24)
 EXPLANATION = EXPLANATION + " " + (
     "ATOM/c-truthiness: inflateValidate's int parameter becomes the bool of inflate::validate by `!= 0`.")
+
+# session 5 (round 11)
+EXPLANATION = EXPLANATION + " " + (
+    'ATOM/adler-stride (round 11, shared with C09): the Adler-32 that inflate compares with the trailer comes from kernels whose deferred modulo stays within NMAX bytes.')
